@@ -48,6 +48,9 @@ type DirEnt struct {
 	Name string `json:"name"`
 	Dir  bool   `json:"dir,omitempty"`
 	Src  int    `json:"src"`
+	// the file is rewritten with its previous modification time restored
+	// (cp -p, rsync -t): size and mtime alone do not tell that it changed
+	KeepStamp bool `json:"keep_stamp,omitempty"`
 }
 
 type Op struct {
@@ -66,7 +69,13 @@ type Case struct {
 	Ops     []Op     `json:"ops"`
 	Snaps   []Snap   `json:"snaps"`
 	Note    string   `json:"note,omitempty"`
+	// Prometheus samples after the last step, by prog label (when requested)
+	Scrape    map[string][]string `json:"scrape,omitempty"`
+	ScrapeErr string              `json:"scrape_err,omitempty"`
 }
+
+// WantScrape makes Run gather the Prometheus registry after the last step.
+var WantScrape bool
 
 // Run executes ops on a fresh real Runtime and snapshots after every step.
 // For histories containing "scan" ops a real directory is used.
@@ -120,6 +129,13 @@ func (w *World) Run(ops []Op, omit, counters bool) *Case {
 		c.Ops = append(c.Ops, o)
 		c.Snaps = append(c.Snaps, rt.Snapshot(counters))
 	}
+	if WantScrape {
+		sc, err := rt.Scrape()
+		c.Scrape = sc
+		if err != nil {
+			c.ScrapeErr = err.Error()
+		}
+	}
 	rt.Close()
 	if dir != "" {
 		_ = os.RemoveAll(dir)
@@ -153,8 +169,12 @@ func syncDir(dir string, want []DirEnt, texts []string) {
 		if err == nil && string(old) == texts[e.Src] {
 			continue
 		}
+		fi, serr := os.Stat(p)
 		if err := os.WriteFile(p, []byte(texts[e.Src]), 0o644); err != nil {
 			panic(err)
+		}
+		if e.KeepStamp && serr == nil {
+			_ = os.Chtimes(p, fi.ModTime(), fi.ModTime())
 		}
 	}
 }
